@@ -1177,8 +1177,11 @@ def randcap(nrand, ra, dec, rad, get_radius=False, dorot=False, rng=None):
 
         atbound(rand_ra, 0.0, 360.0)
 
-    if get_radius:
+        # radii back to degrees; on the rotated path they already come in
+        # degrees from the inner call
         np.rad2deg(rand_r, rand_r)
+
+    if get_radius:
         return rand_ra, rand_dec, rand_r
     else:
         return rand_ra, rand_dec
